@@ -1,4 +1,32 @@
-(* placeholder until the proofs are integrated *)
-From DictIO Require Import Chars Str Value Scalar.
-Theorem C16_placeholder : True. Proof. exact I. Qed.
-Print Assumptions C16_placeholder.
+(* C16  Append mode never loses what is already in the file; overwrite mode replaces it (data level; the
+   file round trip itself is C01 / C10 / C09 and the byte-level write step is tied by the check). *)
+From Coq Require Import NArith ZArith List Bool.
+From DictIO Require Import Chars Str Value Scalar KeyPath SDict TreeSpec MiscSpec SDictProofs CliProofs.
+Import ListNotations.
+
+(* whatever the sequence of writes: after an append every leaf that was in the file is still there *)
+Theorem C16_append_keeps : forall s d p v,
+  get_dpath (Dict s) p = Some (Leaf v) ->
+  exists s', spec_write (Some s) (d, true) = Some s' /\ get_dpath (Dict s') p = Some (Leaf v).
+Proof. exact append_keeps. Qed.
+Print Assumptions C16_append_keeps.
+
+(* ... for every number of further appends *)
+Theorem C16_appends_keep : forall ds s p v,
+  get_dpath (Dict s) p = Some (Leaf v) ->
+  exists s', spec_writes (map (fun d => (d, true)) ds) (Some s) = Some s' /\ get_dpath (Dict s') p = Some (Leaf v).
+Proof. exact appends_keep. Qed.
+Print Assumptions C16_appends_keep.
+
+(* overwrite (and any write to a file that does not exist) makes the file contain exactly the new dict *)
+Theorem C16_overwrite : forall st d, spec_write st (d, false) = Some d /\ spec_write None (d, true) = Some d.
+Proof. exact overwrite_replaces. Qed.
+Print Assumptions C16_overwrite.
+
+(* every key path of the appended dict is present afterwards unless an existing non-dict entry is in its way *)
+Theorem C16_append_adds : forall s d p x, wf (Dict d) = true -> get_dpath (Dict d) p = Some x ->
+  exists s', spec_write (Some s) (d, true) = Some s' /\
+  ((exists y, get_dpath (Dict s') p = Some y) \/
+   (exists r t, strict_prefix r p /\ r <> [] /\ get_dpath (Dict s) r = Some t /\ (forall kvs, t <> Dict kvs))).
+Proof. exact append_adds. Qed.
+Print Assumptions C16_append_adds.
